@@ -58,6 +58,9 @@ class Harness(cm.BaseB):
         Cs = range(1, 49) if tier != "quick" else [1, 2, 3, 7, 12, 24, 48]
         for R in Rs:
             out.append({"k": "fam", "R": R, "Cs": [C for C in Cs if R * C > 14]})
+        # three-digit column numbers ("A100" sorts before "A11")
+        for R in (1, 2, 8) if tier == "quick" else (1, 2, 3, 8, 16, 26):
+            out.append({"k": "fam", "R": R, "Cs": [100, 128] if tier == "quick" else [99, 100, 101, 120, 128]})
         # sequences: the same process encodes a selection on one geometry and then on a different geometry with
         # the same number of wells (hidden state between calls must not leak)
         for n in list(range(2, 15)) + [16, 24, 96, 384]:
@@ -81,6 +84,8 @@ class Harness(cm.BaseB):
                     sel2 = {divmod(i, C2) for i in idx}
                     case = {"seq": [[R1, C1, sorted(sel1)], [R2, C2, sorted(sel2)]]}
                     cm.clear_caches()
+                    cm.vandalize_helpers(R1, C1)
+                    cm.vandalize_helpers(R2, C2)
                     self.check(R1, C1, sel1, False)
                     outcome, key, viol, s_ = self.check(R2, C2, sel2, False)
                     st.case("pair", case if not idx else None, f"pair{case}")
@@ -127,6 +132,7 @@ class Harness(cm.BaseB):
             return self.run_pairs(chunk, st)
         if chunk["k"] == "all":
             R, C = chunk["R"], chunk["C"]
+            cm.vandalize_helpers(R, C)
             n = R * C
             allw = [(r, c) for c in range(C) for r in range(R)]
             strings = set()
@@ -143,6 +149,7 @@ class Harness(cm.BaseB):
             return
         R = chunk["R"]
         for C in chunk["Cs"]:
+            cm.vandalize_helpers(R, C)
             for fam, sel in families(R, C):
                 case = {"R": R, "C": C, "sel": sorted(sel) if len(sel) < 20 else fam, "family": fam}
                 if len(sel) >= 20:
@@ -154,17 +161,21 @@ class Harness(cm.BaseB):
 
     def replay(self, case):
         cm.clear_caches()
+        if "R" in case:
+            cm.vandalize_helpers(case["R"], case["C"])
         if "errseq" in case:
             return [[c, d] for c, d in self.one_errseq(case)]
         if "seq" in case:
             (R1, C1, s1), (R2, C2, s2) = case["seq"]
+            cm.vandalize_helpers(R1, C1)
+            cm.vandalize_helpers(R2, C2)
             self.check(R1, C1, {tuple(x) for x in s1}, False)
             return [[c + "/order-dependent", d] for c, d in self.check(R2, C2, {tuple(x) for x in s2}, False)[2]]
         if case["sel"] == "ALL":
             R, C = case["R"], case["C"]
             n = R * C
             allw = [(r, c) for c in range(C) for r in range(R)]
-            strings = {self.check(R, C, {allw[i] for i in range(n) if m >> i & 1}, False)[3] for m in range(1 << n)}
+            strings = {self.check(R, C, {allw[i] for i in range(n) if m >> i & 1}, m % 5 == 0)[3] for m in range(1 << n)}
             return [] if len(strings) == 1 << n else [["C12/not-injective", f"{len(strings)} strings"]]
         sel = {tuple(x) for x in (case.get("sel_full") or case["sel"])}
         return [[c, d] for c, d in self.check(case["R"], case["C"], sel, False)[2]] + [[c, d] for c, d in self.check(case["R"], case["C"], sel, True)[2]]
